@@ -29,7 +29,15 @@ type symstr struct {
 type abortPath struct{ reason string }
 
 func unsupported(format string, args ...interface{}) {
-	panic(abortPath{fmt.Sprintf(format, args...)})
+	where := ""
+	if curFrame != nil {
+		where = " [in " + curFrame.fn.String()
+		if curFrame.caller != nil {
+			where += " <- " + curFrame.caller.fn.String()
+		}
+		where += "]"
+	}
+	panic(abortPath{fmt.Sprintf(format, args...) + where})
 }
 
 func kindWidth(k types.BasicKind) int {
